@@ -200,10 +200,8 @@ def routeTag : Option TextFlags → String
     | .handOnly => "route-hand-only"
     | .handThenBridge => "route-hand-then-bridge"
 
-def obsOfCell (tok : String) : Option (Obs Float) :=
-  match parseCell tok with
-  | some (some v) => some (obsV v)
-  | _ => none
+/-- `Ex.sameObs` on transported cells: equal, or both not-true (NULL / FALSE) -/
+def sameCell (a b : String) : Bool := a == b || ((a == "n" || a == "b:f") && (b == "n" || b == "b:f"))
 
 def stepRow (e : Expr) (flags : Option TextFlags) (isBool : Bool) (cells : List (Option (Value Float)))
     (impl : List (List String)) : RowOut :=
@@ -235,10 +233,9 @@ def stepRow (e : Expr) (flags : Option TextFlags) (isBool : Bool) (cells : List 
   let bridgeFirst := match flags with | some fl => routeOf fl == .bridgeThenHand | none => false
   let rFail : List (String × String) := match sv, rImpl with
     | .ok v, [_, c] =>
-      match obsOfCell c with
-      | some o => if sameObs (obsV v) o then [] else
-          [("select-value", if !parses then "not-operator" else if bridgeFirst && !nonnull then "null-operand-exprlang" else "none")]
-      | none => [("select-value", if !parses then "not-operator" else "none")]
+      -- `sameObs` on canonical cells (zero sign and NaN payload are not observed)
+      if sameCell (cellOf v) c then [] else
+        [("select-value", if !parses then "not-operator" else if bridgeFirst && !nonnull then "null-operand-exprlang" else "none")]
     | .ok _, _ => [("select-value", "none")]
     | .bad _, _ => []
   let wFail : List (String × String) := if !isBool then [] else
@@ -258,7 +255,12 @@ def stepRow (e : Expr) (flags : Option TextFlags) (isBool : Bool) (cells : List 
 def stepFn (f : String) (args : List String) (impl : List (List String)) : RowOut :=
   let fname := f.toList
   let cells := args.map parseCell
-  let okArgs := cells.all fun c => match c with | some (some _) => true | _ => false
+  -- numbers the driver's `fmtNumF` renders like Go: finite multiples of 1/4 below 1e15
+  let nice : Value Float → Bool := fun v => match v with
+    | .num x => x.isFinite && x.abs < 1.0e15 && (x * 4.0).floor == x * 4.0
+    | .str s => s.all fun c => c.toNat < 128      -- `upperC`/`lowerC` are ASCII
+    | _ => true
+  let okArgs := cells.all fun c => match c with | some (some v) => nice v | _ => false
   let vals : List (Value Float) := cells.filterMap fun c => match c with | some (some v) => some v | _ => none
   let panicked := impl.any fun l => l.head? = some "panic"
   let line :=
